@@ -642,6 +642,9 @@ fn gen_c03(ctx: &mut Ctx) {
         b"\xEF\xBC\x90", b"\xEF\xBC\x99", b"\xEF\xBC\xA1", b"\xEF\xBC\xA6", b"\xEF\xBD\x81", b"\xEF\xBD\x86",
         b"\xF0\x9D\x9F\x8E", b"\xF0\x9D\x9F\x97", b"\xC2\xB2", b"\xC2\xBD", b"\xE2\x85\xA0", b"\xCE\x91", b"\xD0\x90",
         b"\xE2\x80\xA8", b"\xC2\x85", b"\xEF\xBB\xBF", b"\xE2\x84\xAA", b"\xC5\xBF", b"\xC0\xB0", b"\xE0\x80\xB0",
+        // characters whose upper / lower / folded case is SEVERAL characters (the ff, fi, ffi ligatures become "FF", "FI",
+        // "FFI"; sharp s, dotted capital I, the dz digraph, n preceded by apostrophe)
+        b"\xEF\xAC\x80", b"\xEF\xAC\x81", b"\xEF\xAC\x83", b"\xC3\x9F", b"\xC4\xB0", b"\xC7\x85", b"\xC5\x89",
     ];
     for (ti, tpl) in templates.iter().enumerate().take(if ctx.tier_thorough { 8 } else { 3 }) {
         let _ = ti;
@@ -663,6 +666,13 @@ fn gen_c03(ctx: &mut Ctx) {
                         let mut s = v[..i].to_vec();
                         s.extend_from_slice(seq);
                         s.extend_from_slice(&v[i + seq.len()..]);
+                        dec_case(ctx, &s, "unicode-lookalike");
+                    }
+                    // two characters replaced by the sequence (a pair such as "FF" by one character that case-maps to it)
+                    if i + 2 <= v.len() && seq.len() != 2 {
+                        let mut s = v[..i].to_vec();
+                        s.extend_from_slice(seq);
+                        s.extend_from_slice(&v[i + 2..]);
                         dec_case(ctx, &s, "unicode-lookalike");
                     }
                     // sequence inserted
